@@ -170,8 +170,17 @@ class QCircuitEnhanced(QCircuit):
         uncomputed = set()
         new_gates_comp = []
 
+        # An ancilla computed from ancillas that have been cleaned in the meantime
+        # cannot be restored by replaying its gates: it is left to uncompute_all
+        blocked = set()
+        for g, ws, p in self.gates_computed:  # type: ignore
+            if ws[-1] in self.marked_ancillas and any(
+                c in self.free_ancilla_lst for c in ws[:-1]
+            ):
+                blocked.add(ws[-1])
+
         for g, ws, p in reversed(self.gates_computed):  # type: ignore
-            if ws[-1] in self.marked_ancillas:
+            if ws[-1] in self.marked_ancillas and ws[-1] not in blocked:
                 uncomputed.add(ws[-1])
                 self.append(g, ws, p)
             else:
@@ -195,7 +204,7 @@ class QCircuitEnhanced(QCircuit):
                         still_needed.add(c)
                         changed = True
 
-        for x in self.marked_ancillas:
+        for x in self.marked_ancillas - blocked:
             self.free_ancilla_lst.add(x)
             if x in still_needed:
                 self.reserved_ancillas.add(x)
